@@ -116,4 +116,14 @@ CLAIMS['C03']['note'] = ('Method.bind is an assumed contract (binds(method, para
                          'non-JSON text and the error constructor are proved (dispatch, JsonRpcError.__init__); the '
                          '-32600 clause for invalid documents is covered by the from_json contracts (C06) plus dispatch '
                          'never raising, not yet as an explicit postcondition; user callables follow A-user')
+CLAIMS['C10'] = {
+    'text': 'AsyncDispatcher.dispatch: with concurrent_batch switched off no path of the body reaches asyncio.gather (ghost '
+            'counter of gather calls unchanged - the only construct through which element handlers can be in flight '
+            'together), the elements are awaited by a list comprehension in request order; in both modes the responses are '
+            'collected in request order (assumed contract of gather: results in argument order) and filtered structurally.',
+    'note': 'the quantifier over SCHEDULES is not enumerated by this technique: the claim is reduced to (i) the per-element '
+            'handler contract, (ii) no shared mutable state written by the handler chain (not machine-checked as a frame '
+            'yet), (iii) the assumed contract of asyncio.gather; await-erasure (single-task reasoning); the non-interference '
+            'meta-theorem connecting these to every interleaving is a paper argument',
+}
 NOT_CLAIMED = {}
